@@ -64,10 +64,13 @@ def sigma(lay, i):
         ('zerountil', za[1]), ('zerountil', za[1] + 1),
         ('align', 4),
         ('include', f'inc{i}.asm'),
+        # a zone / origin directive with a label in front of it on the same line is still that directive
+        ('sameline', ('label', f'L{i}'), ('memzone', na)), ('sameline', ('label', f'M{i}'), ('org', 1, nb)),
+        ('sameline', ('label', f'N{i}'), ('org', 6, None)),
     ]
 
 
-NSYM = 15
+NSYM = 18
 
 
 def included(i, lay=None):
@@ -78,7 +81,7 @@ def included(i, lay=None):
 def meta(tier):
     q = tier == 'quick'
     return {
-        'rule': 'every program over the 15-symbol zone alphabet up to the depth bound under 9 zone layouts (predefined / created in '
+        'rule': 'every program over the 18-symbol zone alphabet (incl. zone / origin directives with a label in front of them) up to the depth bound under 9 zone layouts (predefined / created in '
                 'source, default / redefined GLOBAL, nested / overlapping / adjacent zones, zones sharing exactly one address, a one-address zone, zone names differing only in letter case, a zone called global, zones at the top of a 5-bit address '
                 'space), plus every ill-formed declaration from the grid; expected: image of the reference layout, or rejection '
                 'iff a byte would lie outside its selected zone or GLOBAL (or two lines collide); non-trivial = program that '
